@@ -336,3 +336,30 @@ def attr_initialised_as(repo: Repo, module: str, cls: str, attr: str, ctor_src: 
             ok = True
     return [ob(f"{module}.{cls}.__init__/{attr}-is-{ctor_src}", ok,
                f"self.{attr} is {'' if ok else 'NOT '}created as {ctor_src}(...)", fi.lineno)]
+
+
+def returns_call(repo: Repo, module: str, cls, method: str, call_src: str):
+    """every `return` of the method returns `<call_src>(...)` (e.g. the clock a timestamp is taken from)"""
+    fi = _method(repo, module, cls, method)
+    rets = [n for n in ast.walk(fi.node) if isinstance(n, ast.Return)]
+    ok = bool(rets) and all(isinstance(r.value, ast.Call) and ast.unparse(r.value.func) == call_src for r in rets)
+    got = ", ".join(ast.unparse(r.value) if r.value is not None else "None" for r in rets)
+    return [ob(f"{module}.{cls}.{method}/returns:{call_src}", ok,
+               f"{cls}.{method} returns {got}; the contract wants {call_src}()", fi.lineno)]
+
+
+def calls_with_kw_from(repo: Repo, module: str, cls, method: str, ctor_suffix: str, kw: str, allowed_srcs: tuple):
+    """every call `<..ctor_suffix>(..., kw=<expr>)` in the method takes kw from one of the allowed source texts"""
+    fi = _method(repo, module, cls, method)
+    out = []
+    for fn in [fi.node] + [n for n in ast.walk(fi.node) if isinstance(n, (ast.FunctionDef, ast.AsyncFunctionDef))]:
+        for n in ast.walk(fn):
+            if isinstance(n, ast.Call) and ast.unparse(n.func).endswith(ctor_suffix):
+                for k in n.keywords:
+                    if k.arg == kw:
+                        src = ast.unparse(k.value)
+                        key = f"{module}.{cls}.{method}/{ctor_suffix}.{kw}@L{n.lineno}"
+                        if not any(o["id"] == key for o in out):
+                            out.append(ob(key, src in allowed_srcs, f"{ctor_suffix}({kw}={src}) at line {n.lineno}; "
+                                                                    f"allowed clock expressions: {allowed_srcs}", n.lineno))
+    return out
